@@ -102,3 +102,11 @@ def nt_c09(main):
 
 reg(Prop('C09', {'quick': 3000, 'thorough': 40000}, {'quick': 100, 'thorough': 1500}, RULE_C09,
          cfg={'quick': {'max_size': 30}, 'thorough': {'max_size': 60}}, nontrivial=nt_c09))
+
+
+RULE_C20 = ('one evaluation = one schedule of one program pair executed in a fresh fork of the cold zygote: thread A '
+            'pre-empted at its k-th traced library line with B running to completion in the gap (single-pre-emption '
+            'family), or a seeded multi-switch schedule; distinct = distinct switch-point lists (thread, file:line, '
+            'per-thread line count); non-trivial = at least one thread switch actually happened inside library code')
+reg(Prop('C20', {'quick': 0, 'thorough': 0}, {'quick': 100, 'thorough': 1500}, RULE_C20, level='fault_enumeration', mode='threads',
+         cfg={'quick': {'pairs': 3, 'k_per_pair': 500, 'pct_per_pair': 60}, 'thorough': {'pairs': 8, 'all_k': True, 'pct_per_pair': 400}}))
